@@ -72,7 +72,9 @@ class ReadTableGrouper(AbstractReadGrouper):
     def __init__(self, table_tsv_file, read_id_column_index=0, group_id_column_index=1, delim='\t'):
         AbstractReadGrouper.__init__(self)
         logger.debug("Reading read groups from " + table_tsv_file)
-        self.read_map = load_table(table_tsv_file, read_id_column_index, group_id_column_index, delim)
+        # the table is split only into the sequences listed in BAM headers, no read can come from any other
+        self.read_map = load_table(table_tsv_file, read_id_column_index, group_id_column_index, delim) \
+            if os.path.exists(table_tsv_file) else {}
 
     def get_group_id(self, alignment, filename=None):
         if alignment.query_name not in self.read_map:
